@@ -302,6 +302,6 @@ def check_event(ev, known_invalid=False, usage_refusal=False):
             errno not in ("0", "ENOMEM"):
         out.append(("errno-class", "errno %s not among the documented %s" % (
             errno, sorted(spec.errnos))))
-    if usage_refusal and errno not in ("EINVAL", "0"):
+    if usage_refusal and spec.errfn != NEVER and errno not in ("EINVAL", "0"):
         out.append(("usage-errno", "invalid argument reported as %s" % errno))
     return out
